@@ -90,6 +90,10 @@ where
     let mut r#match = None;
     let mut len = 0;
 
+    // The end of the previous field. A trailing carriage return is only part of the line
+    // terminator when it was read as part of this field.
+    let start = dst.len();
+
     loop {
         let src = match reader.fill_buf() {
             Ok(src) => src,
@@ -116,7 +120,7 @@ where
 
     let is_eol = matches!(r#match, Some(LINE_FEED));
 
-    if is_eol && dst.ends_with(&[CARRIAGE_RETURN]) {
+    if is_eol && dst.len() > start && dst.ends_with(&[CARRIAGE_RETURN]) {
         dst.pop();
     }
 
